@@ -404,7 +404,19 @@ func TestDhcp(t *testing.T) {
 	// round trip of structured messages
 	for i := 0; i < n; i++ {
 		m := GenMsg(r)
-		b := m.Assemble()
+		if i%7 == 0 { // payload lengths at the one-byte length boundary
+			m.Options = append(m.Options, dhcpmsg.DHCPOpt{Option: Pick(r, uint8(12), 15, 61, 43), Data: r.Bytes(Pick(r, 253, 254, 255, 128, 127))})
+		}
+		b, perr := func() (b []byte, perr interface{}) {
+			defer func() { perr = recover() }()
+			return m.Assemble(), nil
+		}()
+		if perr != nil {
+			s.Find(Finding{Property: "C12", Signature: "asm-panic", Stream: "dhcp", What: "Assemble panics on a representable message (payloads of at most 255 bytes)",
+				Ops: []string{"asmdhcp " + MsgFields(&m)}, Observed: fmt.Sprint(perr)})
+			s.Op("asmdhcp "+MsgFields(&m), "panic", true)
+			continue
+		}
 		s.Op("asmdhcp "+MsgFields(&m), "ok "+Hex(b), true)
 		checkDecode(b, "asm")
 		if len(m.ClientMAC) <= 16 {
